@@ -25,6 +25,11 @@
 (*                   releasing muDeviceCaches (code as first found);       *)
 (*                   TRUE: parks inside getOrCreateDeviceCache, lock held  *)
 (*   SignalBuffered  capacity of the main queue's wake-up channel          *)
+(*   RequeueAll      what ProcessMessageQueueForDevicePK re-injects        *)
+(* Scenario fields win (ratchet window, 0 = unlimited) and regat (per      *)
+(* device: the chain key is announced after that many messages were        *)
+(* sealed, so messages with a counter <= regat[d] can never be opened: a   *)
+(* member that joined late).                                               *)
 (***************************************************************************)
 EXTENDS Naturals, Sequences, FiniteSets, TLC, Json
 
@@ -32,7 +37,10 @@ CONSTANTS Scenarios,   \* sequence of [arr: Seq(msg), regs: set of devices regis
                        \*              known: set of devices known from the start, cancel: BOOLEAN]
           DevOf, CtrOf,  \* functions on message names
           Devs,
-          ParkUnderLock, SignalBuffered
+          ParkUnderLock, SignalBuffered,
+          RequeueAll     \* ProcessMessageQueueForDevicePK hands back the whole device queue (TRUE, repaired) or only its
+                         \* lowest-counter message (FALSE, code as first found: a head that can never be opened - sealed
+                         \* before the announced counter - leaves every decryptable message behind it parked)
 
 VARIABLES si,
           mq, mqmu, sig,        \* main queue: content, mutex holder, buffered signals
@@ -58,9 +66,11 @@ Nil == "nil"
 KName(d) == "k_" \o d
 \* ratchet window (0 = scenario stays inside the window): opened = delivered + the message being flushed / emitted
 Win == IF "win" \in DOMAIN Sc THEN Sc.win ELSE 0
+RegAt(d) == IF "regat" \in DOMAIN Sc /\ d \in DOMAIN Sc.regat THEN Sc.regat[d] ELSE 0
 NOpen(d) == Cardinality({i \in DOMAIN delivered : DevOf[delivered[i]] = d})
             + (IF lpc \in {"PF", "FA_lock", "FA_sel"} /\ lcur # Nil /\ DevOf[lcur] = d THEN 1 ELSE 0)
-InWin(m) == Win = 0 \/ CtrOf[m] <= Win + NOpen(DevOf[m])
+InWin(m) == /\ CtrOf[m] > RegAt(DevOf[m])
+            /\ (Win = 0 \/ CtrOf[m] <= RegAt(DevOf[m]) + Win + NOpen(DevOf[m]))
 
 Init == /\ si \in DOMAIN Scenarios
         /\ mq = <<>> /\ mqmu = "none" /\ sig = 0 /\ cmu = "none"
@@ -71,7 +81,7 @@ Init == /\ si \in DOMAIN Scenarios
         /\ apc = "start" /\ ai = 1
         /\ lpc = "start" /\ lcur = Nil /\ lrest = <<>>
         /\ kpc = [d \in Devs |-> IF d \in Scenarios[si].regs THEN "start" ELSE "none"]
-        /\ knext = [d \in Devs |-> Nil]
+        /\ knext = [d \in Devs |-> <<>>]
         /\ cpc = IF Scenarios[si].cancel THEN "start" ELSE "none"
         /\ h = <<>>
 
@@ -170,19 +180,26 @@ P1(d) == /\ kpc[d] = "P1" /\ cmu = "none"
                    /\ IF keyKnown[d] THEN cmu' = KName(d) /\ KSet(d, "P2") ELSE cmu' = "none" /\ KSet(d, "done")
               ELSE /\ UNCHANGED <<cknown, cmu>> /\ KSet(d, "done")
          /\ UNCHANGED <<mq, mqmu, sig, cexists, pq, pqmu, keyKnown, knext, lpc>> /\ KUnch /\ Sched(KName(d), kpc'[d])
-\* device.queue.Next(): gate Lock(pq.muMessages) while holding muDeviceCaches
+\* device.queue.Next() / NextAll(): gate Lock(pq.muMessages) while holding muDeviceCaches
 P2(d) == /\ kpc[d] = "P2" /\ pqmu[d] = "none"
-         /\ IF pq[d] = {} THEN /\ cmu' = "none" /\ KSet(d, "done") /\ UNCHANGED <<pq, knext>>
-            ELSE /\ knext' = [knext EXCEPT ![d] = MinOf(pq[d])] /\ pq' = [pq EXCEPT ![d] = @ \ {MinOf(pq[d])}]
-                 /\ KSet(d, "KA_lock") /\ UNCHANGED cmu
-         /\ UNCHANGED <<mq, mqmu, sig, cexists, cknown, pqmu, keyKnown, lpc>> /\ KUnch /\ Sched(KName(d), kpc'[d])
+         /\ IF pq[d] = {} THEN /\ cmu' = "none" /\ KSet(d, "done") /\ UNCHANGED <<pq, pqmu, knext>>
+            ELSE IF RequeueAll
+              THEN /\ knext' = [knext EXCEPT ![d] = Sorted(pq[d])] /\ pq' = [pq EXCEPT ![d] = {}]
+                   /\ pqmu' = [pqmu EXCEPT ![d] = KName(d)]                   \* NextAll keeps the queue's lock while it hands the items over
+                   /\ KSet(d, "KA_lock") /\ UNCHANGED cmu
+              ELSE /\ knext' = [knext EXCEPT ![d] = <<MinOf(pq[d])>>] /\ pq' = [pq EXCEPT ![d] = @ \ {MinOf(pq[d])}]
+                   /\ KSet(d, "KA_lock") /\ UNCHANGED <<cmu, pqmu>>
+         /\ UNCHANGED <<mq, mqmu, sig, cexists, cknown, keyKnown, lpc>> /\ KUnch /\ Sched(KName(d), kpc'[d])
 KALock(d) == /\ kpc[d] = "KA_lock" /\ mqmu = "none" /\ mqmu' = KName(d)
-             /\ mq' = Append(mq, knext[d]) /\ KSet(d, "KA_sel")
+             /\ mq' = Append(mq, Head(knext[d])) /\ KSet(d, "KA_sel")
              /\ UNCHANGED <<sig, cmu, cexists, cknown, pq, pqmu, keyKnown, knext, lpc>> /\ KUnch /\ Sched(KName(d), "KA_sel")
 KASel(d) == /\ kpc[d] = "KA_sel"
-            /\ lpc' = SigLoopPc /\ sig' = SigBuf /\ mqmu' = "none" /\ cmu' = "none"
-            /\ knext' = [knext EXCEPT ![d] = Nil] /\ KSet(d, "done")
-            /\ UNCHANGED <<mq, cexists, cknown, pq, pqmu, keyKnown>> /\ KUnch /\ Sched(KName(d), "done")
+            /\ lpc' = SigLoopPc /\ sig' = SigBuf /\ mqmu' = "none"
+            /\ knext' = [knext EXCEPT ![d] = Tail(@)]
+            /\ IF Len(knext[d]) > 1 THEN /\ KSet(d, "KA_lock") /\ UNCHANGED <<cmu, pqmu>>
+               ELSE /\ cmu' = "none" /\ KSet(d, "done")
+                    /\ pqmu' = [pqmu EXCEPT ![d] = IF @ = KName(d) THEN "none" ELSE @]
+            /\ UNCHANGED <<mq, cexists, cknown, pq, keyKnown>> /\ KUnch /\ Sched(KName(d), kpc'[d])
 
 \* ------------------------------------------------------------------ canceller
 CStart == /\ cpc = "start" /\ cpc' = "c_cancel"
